@@ -64,7 +64,7 @@ def worker(ctx):
             try:
                 ca = sut_compiler.compile_schema(S, da, langs, rng=rng, emit_kw=dict(semi=0.2, comments=0.1))
             except Exception as e:
-                res.count("skipped_compile_error")
+                harness.compile_failed(res, e, wit)
                 continue
             wit["original"] = pycommon.describe(S, ca["paths"])
             try:
